@@ -1,0 +1,31 @@
+//go:build !windows && verif
+
+package daemon
+
+import (
+	"os"
+	"path/filepath"
+	"strconv"
+	"time"
+)
+
+// verifPause lets a verification harness choose the schedule of launcher and daemon.
+// It is inert unless GLB_VERIF_PAUSE_DIR names a directory: then it records that the
+// point was reached (<point>.reached holds the pid) and, if <point>.hold exists, waits
+// until <point>.release appears.
+func verifPause(point string) {
+	dir := os.Getenv("GLB_VERIF_PAUSE_DIR")
+	if dir == "" {
+		return
+	}
+	os.WriteFile(filepath.Join(dir, point+".reached"), []byte(strconv.Itoa(os.Getpid())), 0o644)
+	if _, err := os.Stat(filepath.Join(dir, point+".hold")); err != nil {
+		return
+	}
+	for i := 0; i < 60000; i++ {
+		if _, err := os.Stat(filepath.Join(dir, point+".release")); err == nil {
+			return
+		}
+		time.Sleep(time.Millisecond)
+	}
+}
